@@ -338,6 +338,13 @@ def case_solver(ctx, rng, idx):
     tag = {"K": K, "Nr": Nr, "Nt": Nt, "Ns": Ns, "P": P, "route": route, "noise": noise,
            "pathloss": pl is not None}
     d = lambda **e: (lambda: {**tag, "raw": raw, **e})
+    # the filters in force are the ones that were installed, whichever form was used
+    okc, gWH = ctx.call("solver-sinr", lambda: (solver.W_H, solver.W), detail=tag)
+    if okc:
+        ctx.ev("solver-sinr", all(np.array_equal(np.asarray(gWH[0][k]), WH[k]) and
+                                  np.array_equal(np.asarray(gWH[1][k]), herm(WH[k]))
+                                  for k in range(K)),
+               cls="installed-receive-filters", detail=d())
     okc, fWH = ctx.call("solver-sinr", lambda: solver.full_W_H, detail=tag)
     if not okc:
         return
